@@ -299,6 +299,23 @@ def add_driver_traces(ctx, res, rng, dims, prop, frozen_bias=False):
                                       {'c0': (18.0 + 0.25 * (k_ * 3 + j_)) if flavour == 'mig' else 0.0, 'c1': 0.0, 'const': flavour != 'mig'})
                                      for j_ in range(P)]
                     cases.append(c)
+    if prop == 'C02':
+        # non-generic points: populations with exactly equal size, selection and dominance but asymmetric migration (a shared
+        # coefficient matrix would be wrong), constant and time-function path
+        rt = random.Random(ctx.seed + 903)
+        for P in (2, 3):
+            for mode in ('const', 'linear'):
+                c = gen_case(rt, P, mode=mode, kind='normal')
+                c['frozen'] = [False] * P
+                c['nomut'] = [False] * P
+                nu0, g0, h0 = rt.choice([1.0, 2.0, 0.5]), rt.choice([0.0, -1.5, 2.0]), rt.choice([0.5, 0.2])
+                for k_, p_ in enumerate(c['par']):
+                    p_['nu'] = {'c0': nu0, 'c1': 0.0}
+                    p_['gamma'] = {'c0': g0, 'c1': 0.0}
+                    p_['h'] = {'c0': h0, 'c1': 0.0}
+                    p_['mig'] = [({'c0': 0.0, 'c1': 0.0, 'const': True} if j_ == k_ else {'c0': 0.3 + 1.1 * k_ + 0.45 * j_, 'c1': 0.0})
+                                 for j_ in range(P)]
+                cases.append(c)
     if prop == 'C04':
         # a frozen population with migration must be rejected: every (P, frozen population, partner, direction)
         for P in (2, 3, 4, 5):
